@@ -60,10 +60,16 @@ def cells_for(decl, payload, allowed_name):
     else:
         cells += variants + [payload[:2], payload + payload]
     if allowed_name != "none":
-        bad = OUTSIDE["ascii"] if allowed_name == "ascii" else OUTSIDE["alphabet"]
-        for position in range(len(payload)):
-            cells.append(payload[:position] + bad + payload[position + 1:])
-        cells.append(bad)
+        # characters outside the allowed range; whitespace-like ones matter because fixed cells are stripped
+        bad_characters = [OUTSIDE["ascii"], "\xa0", "\u2003"] if allowed_name == "ascii" else [OUTSIDE["alphabet"], "\t", "\xa0", "\x0c"]
+        for bad in bad_characters:
+            for position in range(len(payload)):
+                cells.append(payload[:position] + bad + payload[position + 1:])
+            cells.append(bad)
+            if fixed:
+                width = decl["width"]
+                cells += [bad + payload, payload + bad, (payload + bad).ljust(width), (bad + payload).rjust(width), payload.ljust(width - 1) + bad, bad.ljust(width), bad.rjust(width)]
+                cells = [c for c in cells if len(c) <= width + 1]
         if allowed_name == "alphabet" and not fixed:
             cells.append(payload[:1] + " " + payload[2:])
     return [c for c in dict.fromkeys(cells)]
